@@ -37,6 +37,15 @@ def _work(args):
             if '_fork' in case:
                 o['fork_paths'] = bool(case['_fork'])
             rec = symx.explore(_MOD.body, case, reset=getattr(_MOD, 'reset', None), **o)
+            if o.get('ctx_cls') is not None and getattr(o['ctx_cls'], 'log', None):
+                log = o['ctx_cls'].log
+                rec['extra'] = dict(fp_portfolio_queries=len(log), fp_portfolio_s=round(sum(x['seconds'] for x in log), 1),
+                                    fp_portfolio_unsat=sum(1 for x in log if x['verdict'] == 'unsat'),
+                                    fp_portfolio_sat=sum(1 for x in log if x['verdict'] == 'sat'),
+                                    fp_portfolio_unknown=sum(1 for x in log if x['verdict'] == 'unknown'),
+                                    fp_portfolio_by_cvc5=sum(1 for x in log if x['solver'] == 'cvc5'),
+                                    fp_portfolio_by_z3=sum(1 for x in log if x['solver'] == 'z3new'))
+                del log[:]
         else:
             # direct solver job (no path exploration): module function returns a record
             rec = getattr(_MOD, kind)(case)
